@@ -122,7 +122,8 @@ def check_partition(C, N, mode, result):
         got += C[a][b]
     bmin, lmin, bmax, lmax = enumerate_optima(C, N)
     want, wl = (bmin, lmin) if mode == MIN else (bmax, lmax)
-    scale = max(1.0, abs(bmin), abs(bmax), abs(got))
+    # relative to the magnitude of the costs themselves (a matrix may be given in units of 1e-10 or 1e13)
+    scale = N * max([abs(C[a][b]) for a in range(N) for b in range(a + 1, N)] + [0.0])
     if not abs(got - want) <= 1e-9 * scale:
         return {"what": "summed cost of the returned list is not the %s over all strictly increasing lists"
                         % ("minimum" if mode == MIN else "maximum"),
@@ -252,6 +253,12 @@ def random_upper(rng, N, fam):
         return [round(rng.uniform(-5, 5), 6) for _ in range(n)]
     if fam == "sparse":
         return [float(rng.choice([0, 0, 0, 1, 4, 9, 16])) for _ in range(n)]
+    if fam == "tiny_unit":
+        # the same kind of costs in a unit where meaningful differences are below 1e-9 (squared degrees, km^2 ...)
+        return [round(rng.uniform(0, 10), 6) * 1e-10 for _ in range(n)]
+    if fam == "large_unit":
+        # costs of 4e13 that differ by units
+        return [4e13 + float(rng.randrange(0, 6)) for _ in range(n)]
     if fam == "huge":
         return [1e300 + 1 if rng.random() < 0.4 else 1.0 + round(rng.uniform(0, 3), 3) for _ in range(n)]
     raise M.HarnessError("family " + fam)
@@ -320,6 +327,8 @@ def chunks(tier, seed):
                     "key": "exh6_%d" % k})
     for k in range(8):
         out.append({"kind": "rnd", "family": FAMS[k % len(FAMS)], "n": 2 * sz["rnd"], "key": "rnd%d" % k})
+    for k, fam in enumerate(["tiny_unit", "large_unit"]):
+        out.append({"kind": "rnd", "family": fam, "n": sz["rnd"], "key": "unit%d" % k})
     for k in range(3):
         out.append({"kind": "seg", "n": 2 * sz["seg"], "key": "seg%d" % k})
     for k in range(2):
@@ -406,6 +415,17 @@ def cases(chunk):
                    "verbose": rng.random() < 0.1}
     elif kind == "stops":
         for i in range(chunk["n"]):
+            if i % 4 == 3:
+                # pacing: the walker goes back and forth around a point, each fix within the diameter of the centre but
+                # the two ends of the pacing farther apart than the diameter -- no stop of that diameter
+                dia = rng.choice([10.0, 20.0])
+                a = dia * rng.uniform(0.6, 0.9)
+                n = rng.randint(8, 14)
+                seq = [0.0, a, 0.0, -a]
+                pts = [[round(100.0 + seq[k % 4] + 0.01 * k, 3), round(50.0 + 0.013 * k, 3)] for k in range(n)]
+                yield {"kind": "stops", "pts": pts, "plan": ["pacing"] * n, "diameter": dia,
+                       "duration": rng.choice([5.5, 15.5, 25.5]), "rseed": rng.randrange(1 << 30)}
+                continue
             pts, plan = stop_track(rng)
             yield {"kind": "stops", "pts": pts, "plan": plan, "diameter": rng.choice([8.0, 10.0, 15.0, 20.0]),
                    "duration": rng.choice([5.5, 15.5, 25.5, 35.5]), "rseed": rng.randrange(1 << 30)}
@@ -809,6 +829,38 @@ def run_stops(case, ctx):
     cls.append("stops_found" if stops else "no_stop")
     if len(stops) >= 2:
         cls.append("two_stops")
+    # derived object: the same fixes as the concatenation of two parts on each of which the curvilinear abscissa was
+    # computed separately (it restarts at the junction); stop detection must build the same rewards and report the
+    # same stops as on the track built from scratch
+    n = len(pts)
+    if n >= 6:
+        from tracklib.algo.cinematics import computeAbsCurv
+        base2 = gen.make_track(pts, step_ms=10000)
+        k = n // 2
+        t1, t2 = base2.extract(0, k - 1), base2.extract(k, n - 1)
+        M.call(computeAbsCurv, t1)
+        M.call(computeAbsCurv, t2)
+        cat = M.call(lambda: t1 + t2)
+        if not M.is_raised(cat) and cat.size() == n:
+            rec_first = rec
+            _stdrandom.seed(case["rseed"])
+            del REC[:]
+            r2 = M.call(seg.findStopsGlobal, cat, case["diameter"], case["duration"], 1, False)
+            case_w2 = dict(case_w, history="same fixes as t1 + t2, each part carrying its own abs_curv")
+            v2, rec2, _nt2, _c2 = _delegate_common(ctx, r2, "findStopsGlobal (concatenated track)", MAX, sig, cls, case_w2)
+            if v2 is not None:
+                return v2 if v2["v"] == "violated" else held(sig, nt, cls)
+            ctx.monitor("delegate.second_call_same_costs")
+            w = _same_costs(rec_first, rec2)
+            if w is None and [int(i) for i in rec2["result"]] != res:
+                # same rewards: any optimal partition is fine, but it must be optimal -- judged by the contract above
+                pass
+            if w:
+                w["what"] = "stop detection on the same fixes given as a concatenation of two parts (each with its own " \
+                            "abs_curv) built other rewards than on the track built from scratch"
+                w.update(case_w2)
+                return violated(w, sig, nt, cls)
+            cls.append("concatenated_track_with_stale_abs_curv")
     return held(sig, nt, cls)
 
 
